@@ -5,6 +5,8 @@ CONSTANTS
   Drawings = 4
   Kinds = {"rect", "tri", "L", "T", "dia", "rectD", "triD", "LD", "diaD"}
   MutSeq <- MutGen
+  Modes = {"any", "inside", "around", "apart", "touch", "same"}
+  MaxSegs = 26
   Styles = {"long", "short", "mixed", "mid"}
   Theorems = FALSE
 INVARIANTS Export
